@@ -2,7 +2,7 @@ package main
 
 // Registers layer (properties C04 and C13): runs packet.NewRegisters and every accessor of
 // packet.Registers from /repo on generated windows, addresses, byte orders and call sequences.
-// Entries (see coq/DispRegisters.v): reg_new, reg_access3, reg_access3r, reg_seq.
+// Entries (see coq/DispRegisters.v): reg_new, reg_access3, reg_access3r, reg_seq (reads and WithByteOrder).
 
 import (
 	"math"
@@ -186,6 +186,11 @@ func regDo(r *packet.Registers, c regCall) V {
 				return regErr(v == nil)
 			}
 			return vOk(B(v))
+		case 24: // re-configuration inside a sequence: WithByteOrder(p1), every value 0..255
+			if r2 := r.WithByteOrder(bo); r2 != r {
+				return vErr(I(2))
+			}
+			return vOk()
 		}
 		panic("registers.go: unknown accessor code")
 	})
@@ -621,9 +626,45 @@ func genRegSeqCase(r *rng, rot *regRotor) ([]byte, []byte, int, int, []regCall) 
 		if k > 0 && r.intn(5) == 0 {
 			c = calls[r.intn(k)] // repeat an earlier call
 		}
+		if k > 0 && calls[k-1].code == 24 && r.intn(3) != 0 {
+			c = regOrderSensitive(r, uint16(start+r.intn(count))) // a read that shows the order in force
+		}
+		if r.intn(8) == 0 {
+			c = regOrderOp(r) // re-configure the object in the middle of the sequence
+		}
 		calls[k] = c
 	}
 	return vis, spare, start, dflt, calls
+}
+
+// regOrderOp: the sequence element WithByteOrder(bo): 0 ("no flags", NOT "leave as it is") often,
+// every flag combination 0..15, and values with the unused high bits set
+func regOrderOp(r *rng) regCall {
+	bo := 0
+	switch r.intn(6) {
+	case 0, 1:
+		bo = 0
+	case 2, 3, 4:
+		bo = r.intn(16)
+	default:
+		bo = 16 + r.intn(240)
+	}
+	return regCall{24, 0, bo, 0}
+}
+
+// regOrderSensitive: a read whose value depends on the object's default order: 16/32/64-bit numbers
+// and floats without explicit order or with the explicit order 0, strings
+func regOrderSensitive(r *rng, addr uint16) regCall {
+	switch r.intn(4) {
+	case 0:
+		return regCall{r.pick([]int{5, 6, 7, 9, 15}), addr, 0, 0}
+	case 1:
+		return regCall{r.pick([]int{11, 13, 17, 7}), addr, 0, 0}
+	case 2:
+		return regCall{r.pick([]int{8, 10, 12, 14, 16, 18}), addr, 0, 0}
+	default:
+		return regCall{r.pick([]int{19, 20}), addr, 1 + r.intn(8), 0}
+	}
 }
 
 func streamRegSeq(seed uint64, thorough bool) {
@@ -705,28 +746,30 @@ func regSeqRun(vis, spare []byte, start uint16, dflt int, calls []regCall) V {
 		shared[i] = regDo(r, c)
 	}
 	after := B(buf)
-	fresh := make([]V, len(calls))
-	for i, c := range calls {
-		f, _, ref := regMake(vis, spare, start, dflt, 0, 0)
-		if ref != nil {
-			fresh[i] = ref
-			continue
-		}
-		fresh[i] = regDo(f, c)
-	}
+	fresh := regFresh(vis, spare, start, dflt, calls)
 	return L(L(shared...), L(fresh...), after)
 }
 
-// regFresh: every call of the sequence on a fresh private copy of the payload
+// regFresh: every element of the sequence on a fresh private copy of the payload: a new Registers
+// object as constructed (dflt), WithByteOrder(the last order a WithByteOrder element of the sequence
+// set before this element, if any), then the element itself.  What a read returns must not depend
+// on anything else that happened on the object before.
 func regFresh(vis, spare []byte, start uint16, dflt int, calls []regCall) []V {
 	fresh := make([]V, len(calls))
+	cur := -1
 	for i, c := range calls {
 		f, _, ref := regMake(vis, spare, start, dflt, 0, 0)
 		if ref != nil {
 			fresh[i] = ref
 			continue
 		}
+		if cur >= 0 {
+			f.WithByteOrder(packet.ByteOrder(uint8(cur)))
+		}
 		fresh[i] = regDo(f, c)
+		if c.code == 24 {
+			cur = c.p1
+		}
 	}
 	return fresh
 }
@@ -788,7 +831,7 @@ func streamRegShare(seed uint64, thorough bool) {
 		type consumer struct {
 			dflt  int
 			calls []regCall
-			regs  *packet.Registers
+			route int
 			fresh []V
 			out   []V
 		}
@@ -817,12 +860,15 @@ func streamRegShare(seed uint64, thorough bool) {
 				default:
 					c.calls[i] = rot.next(uint16(addr))
 				}
+				if i > 0 && c.calls[i-1].code == 24 && r.intn(2) == 0 {
+					c.calls[i] = regOrderSensitive(r, uint16(addr))
+				}
+				if r.intn(12) == 0 {
+					c.calls[i] = regOrderOp(r) // each consumer re-configures its OWN object
+				}
 			}
 			c.fresh = regFresh(vis, spare, uint16(start), c.dflt, c.calls)
-			// its own Registers object over the SHARED backing array, through AsRegisters
-			if ref := regOver(data, uint16(start), c.dflt, 1+j%3, 0, &c.regs); ref != nil {
-				panic("registers.go: regshare: valid payload refused")
-			}
+			c.route = 1 + j%3
 			cons[j] = c
 		}
 		var wg sync.WaitGroup
@@ -834,9 +880,14 @@ func streamRegShare(seed uint64, thorough bool) {
 				want := regRender(c.fresh)
 				<-gate
 				for rep := 0; rep < reps; rep++ {
+					// its own Registers object over the SHARED backing array, through AsRegisters
+					var regs *packet.Registers
+					if ref := regOver(data, uint16(start), c.dflt, c.route, 0, &regs); ref != nil {
+						panic("registers.go: regshare: valid payload refused")
+					}
 					res := make([]V, len(c.calls))
 					for i, cl := range c.calls {
-						res[i] = regDo(c.regs, cl)
+						res[i] = regDo(regs, cl)
 					}
 					c.out = res
 					if regRender(res) != want {
